@@ -171,11 +171,11 @@ impl<'w> Judge<'w> {
         let key = crate::rng::mix(&[case.input_digest(), case.valid_len.map(|x| x as u64 + 1).unwrap_or(0)]);
         let reuse = matches!(&self.mem_cache, Some((k, _, _)) if *k == key);
         if !reuse {
-            let m = run_mem(case, &self.w.gens, AllocCaps::default(), tag);
+            let m = run_mem(case, &self.w.gens, Self::loose_caps(case), tag);
             record(&mut self.stats, case, "mem", &m);
             self.mem_cache = Some((key, true, m));
         }
-        let st = run_stream(case, &self.w.gens, AllocCaps::default(), tag);
+        let st = run_stream(case, &self.w.gens, Self::loose_caps(case), tag);
         record(&mut self.stats, case, "stream", &st);
         let mem = &self.mem_cache.as_ref().unwrap().2;
         let mut v = vec![];
@@ -203,17 +203,30 @@ impl<'w> Judge<'w> {
                 }
                 (LegRes::Ok(a), LegRes::Ok(b)) => {
                     stats.bump("c12.both_ok");
-                    if !a.same(b) {
+                    if !a.same(a) {
+                        // a NaN inside a generated type: its PartialEq is not reflexive, equality says nothing
+                        stats.bump("skipped.nan_in_value");
+                    } else if !a.same(b) {
                         v.push(viol(case, "value_mismatch", level_key(&case.level), "stream and memory decoded different values from the same bytes".into()));
                     }
-                    let msg_end = case.valid_len.unwrap_or(mem.consumed);
+                    // the reference for "the message it decodes" is what the in-memory decoder
+                    // consumed for the same value (whether that equals the model's length is C01's question)
+                    let msg_end = mem.consumed;
+                    if case.valid_len.is_some() && case.valid_len != Some(mem.consumed) {
+                        stats.bump("info.mem_consumed_differs_from_model_length");
+                    }
                     if st.consumed != msg_end {
                         let class = if st.consumed > msg_end { "overread" } else { "underread" };
                         v.push(viol(case, class, level_key(&case.level), format!("stream pulled {} bytes for a message of {} bytes", st.consumed, msg_end)));
                     }
                     match (&mem.next, &st.next) {
                         (Some(x), Some(y)) => {
-                            if x != y {
+                            let differ = match (x, y) {
+                                (Ok(a), Ok(b)) => a != b,
+                                (Err(_), Err(_)) => false,
+                                _ => true,
+                            };
+                            if differ {
                                 v.push(viol(case, "next_mismatch", level_key(&case.level), format!("value after the message differs: memory {:?} / stream {:?}", brief_next(x), brief_next(y))));
                             } else if !matches!(x, Ok(t) if *t == trailer_tv()) {
                                 stats.bump("info.next_not_trailer_on_both_legs");
@@ -237,8 +250,63 @@ impl<'w> Judge<'w> {
                 (LegRes::Hang { .. }, _) | (LegRes::LostWake { .. }, _) => {}
             }
         }
+        // keep_unknown_fields copies: the emitted decode_async never retains unknown
+        // fields while the emitted decode does. Attribute a disagreement to that
+        // (one specific, recorded finding) only if the input really carries unknown
+        // fields AND the plain twin type agrees between its two legs on these bytes.
+        if let Level::Gen(name) = &case.level {
+            if let Some(plain) = name.strip_prefix("keep::") {
+                let reclass = v.iter().any(|x| matches!(x.class.as_str(), "value_mismatch" | "mem_ok_async_err" | "mem_err_async_ok"));
+                // unknown fields present: either the retained list of the decoded value is
+                // non-empty, or an independent parse of the input finds undeclared fields
+                let retained = match &mem.res {
+                    LegRes::Ok(val) => {
+                        let d = val.debug();
+                        d.contains("LinkedBytes { list: [b") || d.contains("_UnknownFields(")
+                    }
+                    _ => false,
+                };
+                if reclass && (retained || self.input_has_unknown_fields(case, plain)) && self.plain_twin_agrees(case, plain) {
+                    for x in v.iter_mut() {
+                        if matches!(x.class.as_str(), "value_mismatch" | "mem_ok_async_err" | "mem_err_async_ok") {
+                            x.detail = format!("[{}] {}", x.class, x.detail);
+                            x.class = "keep_async_drops_unknown_fields".into();
+                            x.site = "keep_unknown_fields: decode retains unknown fields, decode_async does not".into();
+                        }
+                    }
+                }
+            }
+        }
         self.stats = stats;
         v
+    }
+
+    /// Walk the input the way an emitted decoder does (known ids are read by their
+    /// declared type, everything else is skipped) and report whether it meets a
+    /// field the declared type does not know or whose wire type differs.
+    fn input_has_unknown_fields(&self, case: &Case, plain: &str) -> bool {
+        let Some(def) = self.w.schema.get(plain) else { return false };
+        let mut buf = bytes::Bytes::from(case.bytes.clone());
+        let mut found = false;
+        let sc = &self.w.schema;
+        let _ = std::panic::catch_unwind(std::panic::AssertUnwindSafe(|| {
+            crate::with_mem_proto!(case.proto, &mut buf, |p| {
+                let _ = walk_declared(sc, &mut p, &crate::corpus_def::Ty::Struct(def.name), &mut found, 0);
+            })
+        }));
+        found
+    }
+
+    fn plain_twin_agrees(&self, case: &Case, plain: &str) -> bool {
+        let mut c = case.clone();
+        c.level = Level::Gen(plain.to_string());
+        let m = run_mem(&c, &self.w.gens, AllocCaps::default(), 0);
+        let s = run_stream(&c, &self.w.gens, AllocCaps::default(), 0);
+        match (&m.res, &s.res) {
+            (LegRes::Ok(a), LegRes::Ok(b)) => a.same(b) || !a.same(a),
+            (LegRes::Err { .. }, LegRes::Err { .. }) => true,
+            _ => false,
+        }
     }
 
     // ---------------------------------------------------------------- C07
@@ -248,8 +316,8 @@ impl<'w> Judge<'w> {
         let mut v = vec![];
         let n = case.valid_len.unwrap_or(0);
         // the value's own length: for field levels it is inside `expect`
-        let mem = if case.run_mem { Some(run_mem(case, &self.w.gens, AllocCaps::default(), tag)) } else { None };
-        let st = if case.run_stream { Some(run_stream(case, &self.w.gens, AllocCaps::default(), tag)) } else { None };
+        let mem = if case.run_mem { Some(run_mem(case, &self.w.gens, Self::loose_caps(case), tag)) } else { None };
+        let st = if case.run_stream { Some(run_stream(case, &self.w.gens, Self::loose_caps(case), tag)) } else { None };
         if let Some(m) = &mem {
             record(&mut self.stats, case, "mem", m);
         }
@@ -329,6 +397,14 @@ impl<'w> Judge<'w> {
     }
 
     // ---------------------------------------------------------------- C09
+
+    /// Caps for the properties that do not judge allocation: they only keep a
+    /// corrupt count from really allocating gigabytes (the worker dies, the case
+    /// is counted as skipped and left to C09).
+    pub fn loose_caps(case: &Case) -> AllocCaps {
+        let b = Self::alloc_bound(case.bytes.len());
+        AllocCaps { single: b, window: 4 * b }
+    }
 
     pub fn alloc_bound(input_len: usize) -> u64 {
         16 * 1024 * 1024 + 4096 * input_len as u64
@@ -490,5 +566,92 @@ fn ty_name(t: &crate::corpus_def::Ty) -> String {
         Ty::Set(e) => format!("set<{}>", ty_name(e)),
         Ty::Map(k, v) => format!("map<{},{}>", ty_name(k), ty_name(v)),
         Ty::Struct(n) | Ty::Enum(n) => n.to_string(),
+    }
+}
+
+/// Does the wire value carry a field the declared type does not know (or whose
+/// wire type differs from the declared one), at any nesting level?
+pub fn has_unknown(sc: &crate::tval::Schema, v: &crate::tval::TV, t: &crate::corpus_def::Ty) -> bool {
+    use crate::corpus_def::Ty;
+    use crate::tval::TV;
+    match (v, t) {
+        (TV::Struct(fs), Ty::Struct(n)) => {
+            let Some(def) = sc.get(n) else { return false };
+            fs.iter().any(|(id, fv)| match def.fields.iter().find(|f| f.id == *id) {
+                None => true,
+                Some(f) => crate::tval::wire_type(&f.ty) != fv.ttype() || has_unknown(sc, fv, &f.ty),
+            })
+        }
+        (TV::List(_, xs), Ty::List(e)) | (TV::Set(_, xs), Ty::Set(e)) => xs.iter().any(|x| has_unknown(sc, x, e)),
+        (TV::Map(_, _, kv), Ty::Map(k, vt)) => kv.iter().any(|(a, b)| has_unknown(sc, a, k) || has_unknown(sc, b, vt)),
+        _ => false,
+    }
+}
+
+fn walk_declared<P: pilota::thrift::TInputProtocol>(
+    sc: &crate::tval::Schema,
+    p: &mut P,
+    t: &crate::corpus_def::Ty,
+    found: &mut bool,
+    depth: usize,
+) -> Result<(), pilota::thrift::ThriftException> {
+    use crate::corpus_def::{Kind, Ty};
+    use pilota::thrift::TType;
+    if depth > 90 {
+        return Err(pilota::thrift::new_protocol_exception(pilota::thrift::ProtocolExceptionKind::Unknown, "harness:walk-depth"));
+    }
+    match t {
+        Ty::Bool => p.read_bool().map(|_| ()),
+        Ty::I8 => p.read_i8().map(|_| ()),
+        Ty::I16 => p.read_i16().map(|_| ()),
+        Ty::I32 | Ty::Enum(_) => p.read_i32().map(|_| ()),
+        Ty::I64 => p.read_i64().map(|_| ()),
+        Ty::Double => p.read_double().map(|_| ()),
+        Ty::String | Ty::Binary => p.read_bytes().map(|_| ()),
+        Ty::Uuid => p.read_uuid().map(|_| ()),
+        Ty::List(e) => {
+            let id = p.read_list_begin()?;
+            for _ in 0..id.size {
+                walk_declared(sc, p, e, found, depth + 1)?;
+            }
+            p.read_list_end()
+        }
+        Ty::Set(e) => {
+            let id = p.read_set_begin()?;
+            for _ in 0..id.size {
+                walk_declared(sc, p, e, found, depth + 1)?;
+            }
+            p.read_set_end()
+        }
+        Ty::Map(k, v) => {
+            let id = p.read_map_begin()?;
+            for _ in 0..id.size {
+                walk_declared(sc, p, k, found, depth + 1)?;
+                walk_declared(sc, p, v, found, depth + 1)?;
+            }
+            p.read_map_end()
+        }
+        Ty::Struct(n) => {
+            let Some(def) = sc.get(n) else { return Ok(()) };
+            p.read_struct_begin()?;
+            loop {
+                let f = p.read_field_begin()?;
+                if f.field_type == TType::Stop {
+                    break;
+                }
+                let decl = def.fields.iter().find(|d| Some(d.id) == f.id);
+                match decl {
+                    Some(d) if def.kind == Kind::Union || crate::tval::wire_type(&d.ty) == f.field_type as u8 => {
+                        walk_declared(sc, p, &d.ty, found, depth + 1)?;
+                    }
+                    _ => {
+                        *found = true;
+                        p.skip(f.field_type)?;
+                    }
+                }
+                p.read_field_end()?;
+            }
+            p.read_struct_end()
+        }
     }
 }
